@@ -442,6 +442,12 @@ func driverMain(args []string) int {
 			viols = append(viols, *o.crash)
 		}
 	}
+	for i, h := range all.Harness {
+		if i < 5 {
+			fmt.Fprintln(os.Stderr, "HARNESS TROUBLE:", oneLine(h, 600))
+		}
+		trouble = true
+	}
 	if all.Mismatches > 0 {
 		fmt.Fprintf(os.Stderr, "HARNESS TROUBLE: determinism re-check mismatch in %d of %d re-executed runs (first: run %d)\n",
 			all.Mismatches, all.Rechecked, all.MismatchRun)
@@ -554,6 +560,7 @@ func mergeResult(dst, src *workerResult, distinct, states map[uint64]struct{}) {
 		states[k] = struct{}{}
 	}
 	dst.Violations = append(dst.Violations, src.Violations...)
+	dst.Harness = append(dst.Harness, src.Harness...)
 	dst.RunsDone += src.RunsDone
 	dst.CapHit = dst.CapHit || src.CapHit
 	dst.Rechecked += src.Rechecked
